@@ -5,6 +5,10 @@ from contracts import frame_scan, mps_dataflow as D, mps_dataflow_sites as S
 ID = "C02"
 LEVEL = "proof"
 REPLAY = "replay/c02.py"
+# bounded complement to the proof (pyvc/runner.py _start_native_side_check): the native falsifier also runs when all
+# obligations discharge -- floats are reals in the proofs (A1) and only the functions under contract are covered
+NATIVE_SIDE_CHECK = {"quick": True, "thorough": True}
+
 
 
 def extra_checks(tier, seed, repo_root):
